@@ -593,9 +593,34 @@ func rankText(w *load.World, c *core.Collector) {
 			}
 		}
 	}
-	// operator table
+	// operator table (in Search itself, or in a helper it calls that combines the term sets)
+	opFn := f
+	if and == nil || or == nil {
+		for _, b := range f.Blocks {
+			for _, in := range b.Instrs {
+				if g := ssax.StaticModuleCallee(in); g != nil {
+					var ga, go_ *ssa.Call
+					for _, gb := range g.Blocks {
+						for _, gi := range gb.Instrs {
+							if call, ok := gi.(*ssa.Call); ok && call.Call.StaticCallee() != nil {
+								switch {
+								case strings.HasSuffix(call.Call.StaticCallee().String(), "roaring64.FastAnd"):
+									ga = call
+								case strings.HasSuffix(call.Call.StaticCallee().String(), "roaring64.FastOr"):
+									go_ = call
+								}
+							}
+						}
+					}
+					if ga != nil && go_ != nil {
+						and, or, opFn = ga, go_, g
+					}
+				}
+			}
+		}
+	}
 	var allEdge []ssax.Edge
-	for _, b := range f.Blocks {
+	for _, b := range opFn.Blocks {
 		ifi, ok := b.Instrs[len(b.Instrs)-1].(*ssa.If)
 		if !ok {
 			continue
@@ -605,7 +630,7 @@ func rankText(w *load.World, c *core.Collector) {
 			continue
 		}
 		for _, pr := range [][2]ssa.Value{{bo.X, bo.Y}, {bo.Y, bo.X}} {
-			if s, ok := ssax.ConstString(pr[1]); ok && s == "containsAll" && ssax.Prov(pr[0])["field:Operator"] {
+			if s, ok := ssax.ConstString(pr[1]); ok && s == "containsAll" && (ssax.Prov(pr[0])["field:Operator"] || opFn != f && ssax.Prov(pr[0]).HasPrefix("param:")) {
 				e := 0
 				if bo.Op == token.NEQ {
 					e = 1
